@@ -38,6 +38,16 @@ class DeleteError(FieldError):
     pass
 
 
+def safe_repr(obj) -> str:
+    # the items named in error messages are input data (mapping keys, indexes): an object whose
+    # repr fails (or an int beyond the interpreter's int -> str digit limit) must not replace
+    # the parse error that is being reported by its own exception
+    try:
+        return repr(obj)
+    except Exception:
+        return f"<{obj.__class__.__name__} object>"
+
+
 class ParseError(TypeError, ValueError):
     def __init__(
         self,
@@ -69,8 +79,12 @@ class ParseError(TypeError, ValueError):
     @property
     def formatted_message(self):
         msg = self.msg
-        if self.item:
-            msg = f"parse item: [{repr(self.item)}] failed: {msg}"
+        try:
+            has_item = bool(self.item)
+        except Exception:
+            has_item = True
+        if has_item:
+            msg = f"parse item: [{safe_repr(self.item)}] failed: {msg}"
         if isinstance(self.origin_exc, Exception) and not isinstance(self.origin_exc, ParseError):
             msg = f'{self.origin_exc.__class__.__name__}: {msg}'
         return msg
@@ -169,7 +183,7 @@ class ExceedError(ParseError):
 
     @property
     def formatted_message(self):
-        msg = f"parse item: [{repr(self.item)}] exceeded"
+        msg = f"parse item: [{safe_repr(self.item)}] exceeded"
         if self.msg:
             msg += f": {self.msg}"
         return msg
@@ -250,7 +264,7 @@ class ParamsLackError(ParseError):
 class AbsenceError(ParseError):
     @property
     def formatted_message(self):
-        msg = f"required item: {repr(self.item)} is absence"
+        msg = f"required item: {safe_repr(self.item)} is absence"
         if self.msg:
             msg += f": {self.msg}"
         return msg
